@@ -115,7 +115,8 @@ def real_scan(scs):
                 oid_of[id(r)] = jr["oid"]
     asm = Assembly("x", scaffolds=rs)
     pairs = asm.find_overlapping_fragments()
-    return [[oid_of[id(p[0][0])], oid_of[id(p[1][0])]] for p in (pairs or [])], (pairs is None)
+    # a pair may (wrongly) contain a fragment object that is not part of this assembly: give it an id nothing matches
+    return [[oid_of.get(id(p[0][0]), -7), oid_of.get(id(p[1][0]), -7)] for p in (pairs or [])], (pairs is None)
 
 
 def check_scans(ctx, stream, asms):
